@@ -97,7 +97,8 @@ def bg_spellings(bg, k):
     equivalences: tuple/list of ints, #rrggbb / rrggbb in any case, #rgb / rgb when the digits pair up, rgb(), the keyword)"""
     r, g, b = bg
     h6 = "%02x%02x%02x" % bg
-    sp = [tuple(bg), list(bg), "#" + h6, h6.upper(), f"rgb({r}, {g}, {b})", f"RGB({r},{g},{b})"]
+    sp = [tuple(bg), list(bg), "#" + h6, h6.upper(), f"rgb({r}, {g}, {b})", f"RGB({r},{g},{b})",
+          f"rgba({r}, {g}, {b}, 1)", f"rgba({r},{g},{b},1.0)", (r, g, b, 1.0), [r, g, b, 1], f"rgb({r} {g} {b} / 100%)"]       # alpha 1: opaque
     if all(c % 17 == 0 for c in bg):
         h3 = "".join(HEX[c // 17] for c in bg)
         sp += ["#" + h3, h3 if h3 not in refs._named() else "#" + h3.upper(), h3.upper() if h3.upper().lower() not in refs._named() else "#" + h3]
@@ -169,6 +170,23 @@ def events(t, rnd):
             txt = fn_variant("rgb", [tenths(x) + "%" for x in q], n)
             evs.append({"k": "rgbpct", "p": q, "obs": both(txt, n), "txt": txt})
             n += 1
+    # ---- rgb() percentages with five decimals a hair off every rounding tie (k + 0.5)/255: 2 and 1 hundred-thousandths of a
+    #      percent on either side of (2k+1)*100/510, and random five-decimal values; the exact nearest byte is TLC's (PctChan5)
+    ties = []
+    for k in range(255):
+        n5 = ((2 * k + 1) * 10 ** 7) // 510          # floor of the tie in units of 1e-5 percent
+        for d in (-1, 0, 1, 2):
+            if 0 <= n5 + d <= 10 ** 7:
+                ties.append(n5 + d)
+    def p5(nv):
+        return "%d.%05d%%" % (nv // 100000, nv % 100000)
+    sample = ties if t != "quick" else rnd.sample(ties, 400)
+    for j, nv in enumerate(sample):
+        q = [rnd.choice(ties), rnd.choice(ties), rnd.randrange(10 ** 7 + 1)]
+        q[j % 3] = nv
+        txt = fn_variant("rgb", [p5(x) for x in q], n)
+        evs.append({"k": "rgbpct5", "p": q, "obs": both(txt, n), "txt": txt})
+        n += 1
     # ---- hsl(): one-decimal S/L on a coarse hue grid + negative / >360 hues, spelling variants
     hs = list(range(-720, 1081, 37)) + [-360, -1, 0, 1, 359, 360, 361, 59, 60, 61, 119, 120, 121, 179, 180, 181, 239, 240, 241, 299, 300, 301]
     m = 6000 if t == "quick" else 150000
@@ -271,14 +289,14 @@ def events(t, rnd):
         rg = fn_variant("rgba", [str(x) for x in c] + [a_txt], n)
         hg = fn_variant("hsla", [str(h), tenths(s10) + "%", tenths(l10) + "%", a_txt], n)
         tup = (c[0], c[1], c[2], an / 1000)
-        nsp = 6 + (3 if all(x % 17 == 0 for x in bg) else 0) + 3 * sum(1 for _nm, v in named if tuple(v) == bg)
+        nsp = 11 + (3 if all(x % 17 == 0 for x in bg) else 0) + 3 * sum(1 for _nm, v in named if tuple(v) == bg)
         for k in (range(nsp) if j % 5 == 0 or t != "quick" else [rnd.randrange(nsp), rnd.randrange(nsp)]):
             bg_arg = bg_spellings(bg, k)
-            evs.append({"k": "rgba", "v": list(c), "an": an, "ad": 1000, "bg": list(bg), "obs": parse(rg, bg_arg),
+            evs.append({"k": "rgba", "v": list(c), "an": an, "ad": 1000, "bg": list(bg), "obs": both(rg, n, bg_arg),
                         "txt": rg, "bgarg": repr(bg_arg)})
             evs.append({"k": "hsla", "h": h, "s": s10, "l": l10, "an": an, "ad": 1000, "bg": list(bg),
-                        "obs": parse(hg, bg_arg), "txt": hg, "bgarg": repr(bg_arg)})
-            evs.append({"k": "rgba", "v": list(c), "an": an, "ad": 1000, "bg": list(bg), "obs": parse(tup, bg_arg),
+                        "obs": both(hg, n + 1, bg_arg), "txt": hg, "bgarg": repr(bg_arg)})
+            evs.append({"k": "rgba", "v": list(c), "an": an, "ad": 1000, "bg": list(bg), "obs": both(tup, n + 2, bg_arg),
                         "txt": repr(tup), "bgarg": repr(bg_arg)})
             n += 1
     # ---- calibration of the harness' own CSS reader against the same definition
@@ -490,7 +508,7 @@ def main():
     rep.nontrivial = len({(e["txt"], e.get("bgarg")) for e in evs})
     rep.extra["events_by_kind"] = {k: sum(1 for e in evs if e["k"] == k) for k in sorted({e["k"] for e in evs})}
     rep.extra["cssref_calibration_events"] = len(cal)
-    for k in ("hex3", "named", "rgbpct", "hsl", "rgba", "hsla"):
+    for k in ("hex3", "named", "rgbpct", "rgbpct5", "hsl", "rgba", "hsla"):
         s = next((e for e in evs if e["k"] == k), None)
         if s:
             rep.sample(s, cap=8)
